@@ -269,4 +269,38 @@ theorem misaligned_broadcast_counterexample :
     (outAt (tensorSem ratOps) 2 B p 2 0).map (rowOf · 0) = some ⟨[2], #[2, 7]⟩ := by
   decide +kernel
 
+/-- the per-individual adaptation of the proposal std, as recorded from `_update_std` (history × individuals input with the
+    individuals on axis 1, boolean-mask read-modify-write): `std[hist.mean(dim=0) < 1/4] *= 9/10` -/
+def exAdapt : List (TNode Rat) :=
+  [.ind 0 [3], .ind1 1 [2, 3], .op (.red .mean [0] false) [1] [3], .op (.const ⟨[], #[1/4]⟩) [] [],
+   .op (.ew .lt) [2, 3] [3], .op .mselect [0, 4] [2], .op (.const ⟨[], #[9/10]⟩) [] [],
+   .op (.ew .mul) [5, 6] [2], .op .mscatter [0, 4, 7] [3]]
+
+/-- clamping every std to the cohort median: `torch.minimum(std, std.median())` -/
+def exMedianClamp : List (TNode Rat) :=
+  [.ind 0 [3], .op (.red .median [] false) [0] [], .op (.ew .minimum) [0, 1] [3]]
+
+/-- The recorded adaptation is accepted (mask select / scatter with an individual-level mask of the same leading axis and the
+    mean over the history axis are row-wise) … -/
+theorem exAdapt_rowLocal : rowLocal (lower exAdapt [8]) = true := by decide +kernel
+
+/-- … and computes what `_update_std` does: individuals 0 and 2 (mean acceptance 0) are scaled by 9/10, individual 1
+    (mean acceptance 1/2) keeps its std. -/
+theorem exAdapt_value :
+    let L := inputsOfAx ratOps [] [(⟨[3], #[1, 2, 4]⟩, 0), (⟨[2, 3], #[0, 1, 0, 0, 0, 0]⟩, 1)] []
+    (List.range 3).map (outAt (tensorSem ratOps) 3 L (lower exAdapt [8]) 8) =
+      [some ⟨[], #[9/10]⟩, some ⟨[], #[2]⟩, some ⟨[], #[18/5]⟩] := by
+  decide +kernel
+
+/-- A cohort-relative safeguard is rejected, and rightly so: the std of individual 2 after the clamp changes with the std of
+    individual 1. -/
+theorem cohort_median_clamp_counterexample :
+    let p := lower exMedianClamp [2]
+    let A := inputsOf [] [⟨[3], #[1, 2, 9]⟩] []
+    let B := inputsOf [] [⟨[3], #[1, 5, 9]⟩] []
+    rowLocal p = false ∧ A.ind 0 2 = B.ind 0 2 ∧
+    outAt (tensorSem ratOps) 3 A p 2 2 = some ⟨[], #[2]⟩ ∧
+    outAt (tensorSem ratOps) 3 B p 2 2 = some ⟨[], #[5]⟩ := by
+  decide +kernel
+
 end LeaspyVerif.C07
